@@ -7,7 +7,7 @@
      pass_exhausted ...        = none_good (nothing eligible is readable) or budget_cut (`budget` distinct
                                  versions, each >= every eligible readable one, failed: the pass gave up) *)
 From Coq Require Import List String Bool ZArith.
-From RC Require Import lib.Lex lib.Pep440 lib.Name model.Merge gen.C03Consts model.SelectC03 proofs.SelectC03P.
+From RC Require Import lib.Lex lib.Pep440 lib.Name model.Merge gen.C03Consts model.SelectC03 proofs.SelectC03P proofs.SelectC03GuardP.
 
 Theorem C03_select_sound :
   forall st rq cs c, get_dist st rq cs = Found c ->
